@@ -44,7 +44,10 @@ TreeVal(r) ==
     [] n = "vneg" -> VS(" -1.5 ")
     [] n = "vtxt" -> VS("a~b")
     [] OTHER -> VS("V(" \o ReqStr(r) \o ")")
-DerefTarget(r) == [root |-> TRUE, elems |-> << [n |-> "tgt", keys |-> ("k" :> ReqStr(r))] >>]
+\* the leafref target the tree reports: a keyed list entry whose key values are of the classes real targets have
+\* (an IPv6 address, an identityref with its prefix, a value with path and predicate punctuation and a blank)
+DerefTarget(r) == [root |-> TRUE, elems |-> << [n |-> "tgt", keys |-> ("k" :> ReqStr(r)) @@ ("j" :> "2001:db8::1") @@ ("m" :> "p:x")
+                                                                       @@ ("kk" :> "a/b[c='d'] =e")] >>]
 Call(op, r) == [op |-> op, req |-> r]
 
 \* -------------------------------------------------------------------- meaning
